@@ -319,9 +319,11 @@ class Translator:
     def expr(self, node, env):
         k = self.key(node)
         if k in self.consts:
-            term, typ = self.consts[k]
+            term, typ = self.consts[k][:2]
             if "{st}" in term and "__st" in env:
                 term = term.replace("{st}", env["__st"].term)        # a test the spec maps to the state record
+            if len(self.consts[k]) == 3 and self.consts[k][2] == "raises":
+                return V(self.hoist(term, typ, node), typ)            # an external the spec names for this expression; it may raise
             return V(term, typ)
         if k in self.places:
             if k in self.pairdicts:
